@@ -224,10 +224,143 @@ def r1_standard(ctx):
         missing = {x for x in want_terms - got_terms if x not in cond0}
         extra = got_terms - want_terms
         okl = bool(lose) and not missing and not extra
+        if not getattr(ctx, 'helpers_present', True):
+            continue            # decided by R1-rights-lost on the inlined effect
         ctx.ob(rule, name, tag + ': rights lost (over all lose_castle_rights calls) = moved(mover, from) | taken(removed(to), to)', okl,
                found=[show(a[1]) for a in lose], expected=sorted(show(x) for x in want_terms),
                why='rights are lost exactly when king/home rook moves or a home rook is captured')
     ctx.floor(rule, 'Ok paths of StandardChessMove::apply', len(oks), 2)
+
+
+def r1_rights_semantic(ctx, R):
+    """Rights lost by a standard move, decided on the move's own effect summary whatever helpers compute it: the Ok paths of apply are
+    enumerated with every helper inlined; each path has a constant argument of lose_castle_rights and conditions over (mover piece,
+    mover colour, from, captured piece / colour, to).  The squares enter only through tests against constants, so one representative per
+    cell of the partition those constants induce on the 64 squares covers every square; on that domain every path that matches an input
+    must lose exactly moved(mover, from) | taken(captured, to)."""
+    rule = 'C03.R1-rights-lost'
+    facts = ctx.facts
+    from sa.evalterm import ev, Unevaluable
+    name, outs = kind_summaries(ctx, 'apply', fold_helpers=False)['standard']
+    oks = [o for o in outs if o.kind == 'return' and is_ok_result(o.value)]
+    if not oks:
+        ctx.anchor_missing(rule, name, 'no Ok path')
+        return
+    pd = {p_: discr_of(facts, PIECE_ADT, p_) for p_ in PIECES}
+    cd = {c_: discr_of(facts, 'chess::board::color::Color', c_) for c_ in ('White', 'Black')}
+    frm0 = ('fld', ('fld', ('der', ('p', 1)), 'from_square'), '0')
+    to0 = ('fld', ('fld', ('der', ('p', 1)), 'to_square'), '0')
+    capf = ('fld', ('der', ('p', 1)), 'captures')
+    paths = []
+    consts = {'from': set(), 'to': set()}
+    unknown = set()
+    for o in oks:
+        calls = board_calls(o)
+        rem = [(a, u) for m, a, u in calls if m == 'remove']
+        lose = [a for m, a, u in calls if m == 'lose_castle_rights']
+        if len(rem) != 2 or not lose or not all(is_const(a[1]) for a in lose):
+            ctx.ob(rule, name, 'path shape: two removes, constant rights mask per path', False, found=[show(a[1])[:80] for a in lose],
+                   expected='remove(from), remove(to), lose_castle_rights(<constant on this path>)')
+            return
+        P = ('call', BOARD + '::remove', rem[0][0], rem[0][1])
+        Cap = ('call', BOARD + '::remove', rem[1][0], rem[1][1])
+        mp = ('discr', ('fld', ('fld', P, 'Some.0'), '0'))
+        mc = ('discr', ('fld', ('fld', P, 'Some.0'), '1'))
+        cpres = ('discr', Cap)
+        cp = ('discr', ('fld', ('fld', Cap, 'Some.0'), '0'))
+        cc = ('discr', ('fld', ('fld', Cap, 'Some.0'), '1'))
+        oppc = ('discr', ('call', 'chess::board::color::Color::opposite', (('fld', ('fld', P, 'Some.0'), '1'),), None))
+        lost = 0
+        for a in lose:
+            lost |= a[1][1]
+        paths.append((o, dict(mp=mp, mc=mc, cpres=cpres, cp=cp, cc=cc, oppc=oppc, fpres=('discr', capf),
+                              fcp=('discr', ('fld', ('fld', capf, 'Some.0'), '0'))), lost))
+        for a, v in o.conds:
+            for which, leaf in (('from', frm0), ('to', to0)):
+                if any(s == leaf for s in subterms(a)):
+                    ks = [s[1] for s in subterms(a) if s[0] == 'c' and isinstance(s[1], int) and not isinstance(s[1], bool)]
+                    consts[which].update(ks)
+                    if isinstance(v, int) and not isinstance(v, bool) and v > 1:
+                        consts[which].add(v)
+                    if isinstance(v, tuple) and v and v[0] == 'not':
+                        consts[which].update(x for x in v[1] if isinstance(x, int))
+
+    def reps(ks):
+        special = [sq(n) for n in ('a1', 'e1', 'h1', 'a8', 'e8', 'h8')]
+        masks = sorted(set(ks) | set(special))
+        seen = {}
+        for i_ in range(64):
+            b = 1 << i_
+            sig = tuple((b & m) != 0 if (m & (m - 1)) else b == m for m in masks)
+            seen.setdefault(sig, b)
+        return sorted(seen.values())
+    rf, rt = reps(consts['from']), reps(consts['to'])
+    moved = {(pd['Rook'], cd['White'], sq('a1')): R['WQ'], (pd['Rook'], cd['White'], sq('h1')): R['WK'],
+             (pd['Rook'], cd['Black'], sq('a8')): R['BQ'], (pd['Rook'], cd['Black'], sq('h8')): R['BK'],
+             (pd['King'], cd['White'], sq('e1')): R['WK'] | R['WQ'], (pd['King'], cd['Black'], sq('e8')): R['BK'] | R['BQ']}
+    taken = {(pd['Rook'], cd['White'], sq('a1')): R['WQ'], (pd['Rook'], cd['White'], sq('h1')): R['WK'],
+             (pd['Rook'], cd['Black'], sq('a8')): R['BQ'], (pd['Rook'], cd['Black'], sq('h8')): R['BK']}
+    bad = []
+    n_inputs = n_matched = 0
+    other = {cd['White']: cd['Black'], cd['Black']: cd['White']}
+    def holds(o, env):
+        for a, v in o.conds:
+            try:
+                x = ev(a, env)
+            except Unevaluable:
+                continue
+            if isinstance(v, tuple) and v and v[0] == 'not':
+                if x in v[1]:
+                    return False
+            elif x != (int(v) if isinstance(v, bool) else v):
+                return False
+        return True
+    for p_ in pd.values():
+        for c_ in cd.values():
+            # paths compatible with this mover (tests on the other leaves are unevaluable here and skipped)
+            sub_paths = [(o, L, lost) for o, L, lost in paths if holds(o, {L['mp']: p_, L['mc']: c_, L['oppc']: other[c_]})]
+            for f_ in rf:
+                sub2 = [(o, L, lost) for o, L, lost in sub_paths if holds(o, {L['mp']: p_, L['mc']: c_, L['oppc']: other[c_], frm0: f_})]
+                for cap in [None] + list(pd.values()):
+                    for t_ in rt:
+                        if t_ == f_:
+                            continue
+                        n_inputs += 1
+                        want = moved.get((p_, c_, f_), 0) | (taken.get((cap, other[c_], t_), 0) if cap is not None else 0)
+                        hit = False
+                        for o, L, lost in sub2:
+                            env = {L['mp']: p_, L['mc']: c_, L['oppc']: other[c_], frm0: f_, to0: t_, L['cpres']: 0 if cap is None else 1,
+                                   L['fpres']: 0 if cap is None else 1}
+                            if cap is not None:
+                                env[L['cp']] = cap
+                                env[L['cc']] = other[c_]
+                                env[L['fcp']] = cap
+                            ok = True
+                            for a, v in o.conds:
+                                try:
+                                    x = ev(a, env)
+                                except Unevaluable:
+                                    continue
+                                if isinstance(v, tuple) and v and v[0] == 'not':
+                                    if x in v[1]:
+                                        ok = False
+                                        break
+                                elif x != (int(v) if isinstance(v, bool) else v):
+                                    ok = False
+                                    break
+                            if not ok:
+                                continue
+                            hit = True
+                            if lost != want and len(bad) < 6:
+                                bad.append({'mover': p_, 'colour': c_, 'from': sq_name(f_) or hex(f_), 'captured': cap, 'to': sq_name(t_) or hex(t_),
+                                            'lost': lost, 'expected': want})
+                        n_matched += hit
+    ctx.ob(rule, name, 'rights lost = moved(mover, from) | taken(captured, to) on every input cell (%d representative inputs, %d Ok paths)' % (n_inputs, len(paths)),
+           not bad, found=bad[:4], expected='6-row mover table OR-ed with the 4-row captured-rook table',
+           why='castling rights are lost exactly when the king or a home rook moves or a home rook is captured - also when one move does both '
+               '(a home rook capturing the opposing home rook)')
+    ctx.floor(rule, 'inputs matched by an Ok path', n_matched, n_inputs // 2)
+    ctx.floor(rule, 'Ok paths of StandardChessMove::apply (helpers inlined)', len(paths), 8)
 
 
 def r2_castle(ctx, R):
@@ -481,14 +614,23 @@ def r8_dispatch(ctx):
     ctx.floor(rule, 'dispatch arms', n, 28)
 
 
+def standard_rules(ctx, R):
+    ctx.helpers_present = all(ctx.facts.fns.get(h) is not None for h in STD_HELPERS[1:])
+    if ctx.helpers_present:
+        table_moved(ctx, R)
+        table_taken(ctx, R)
+    table_ep_target(ctx)
+    r1_standard(ctx)
+    r1_rights_semantic(ctx, R)
+
+
 def run(ctx):
     R = rights_consts(ctx)
     if R is None:
         return
-    table_moved(ctx, R)
-    table_taken(ctx, R)
-    table_ep_target(ctx)
-    r1_standard(ctx)
+    # the two rights helpers are tabulated on their whole domain when they exist under these names; when the rights computation is
+    # organised differently (one merged function, inlined code, a lookup table) the decision is taken on the move's effect alone (R1-rights-lost)
+    standard_rules(ctx, R)
     r2_castle(ctx, R)
     r3_en_passant(ctx)
     r4_promotion(ctx)
